@@ -57,7 +57,7 @@ type igen struct {
 	dirs    []string // custom directive names usable on FIELD_DEFINITION
 }
 
-func (g *igen) f(s string)          { g.feat[s] = true }
+func (g *igen) f(s string)           { g.feat[s] = true }
 func (g *igen) w(s string, a ...any) { fmt.Fprintf(&g.b, s, a...) }
 
 func (g *igen) descr(what string) string {
